@@ -226,6 +226,51 @@ Definition prop_refs (ps : list prop) : list key :=
 
 Definition succs (s : schema) : list key := prop_refs (schema_props s).
 
+(* ObjectSchema.ClientProperties (lib/j5schema/root_schema.go): an object field with flatten = true is
+   replaced by the client properties of the object it refers to, recursively. A field type
+   TRef "flatten" k is such a field. None: the recursion does not end (a flatten cycle: Go overflows its stack). *)
+Definition is_flat (t : fty) : option key :=
+  match t with TRef alt k => if String.eqb alt "flatten" then Some k else None | _ => None end.
+
+Fixpoint client_props (fuel : nat) (g : env) (ps : list prop) : option (list prop) :=
+  match fuel with
+  | O => None
+  | S f =>
+      fold_right (fun p acc =>
+          match acc with
+          | None => None
+          | Some rest =>
+              match is_flat (p_ty p) with
+              | Some k =>
+                  match lookup g k with
+                  | Some (SObject qs) => option_map (fun cs => cs ++ rest) (client_props f g qs)
+                  | _ => Some (p :: rest)
+                  end
+              | None => Some (p :: rest)
+              end
+          end) (Some []) ps
+  end.
+
+Definition client_schema (g : env) (s : schema) : option schema :=
+  match s with
+  | SObject ps => option_map SObject (client_props (S (length g)) g ps)
+  | _ => Some s
+  end.
+
+Fixpoint client_env_of (g : env) (l : env) : option env :=
+  match l with
+  | [] => Some []
+  | (k, s) :: r =>
+      match client_schema g s, client_env_of g r with
+      | Some s', Some r' => Some ((k, s') :: r')
+      | _, _ => None
+      end
+  end.
+Definition client_env (g : env) : option env := client_env_of g g.
+
+(* the schemas as the reference walks see them *)
+Definition cenv (g : env) : env := match client_env g with Some g' => g' | None => g end.
+
 (* collectPackageRefs.walkRefRoot: visited map; a ref that is not linked (To == nil) is an error
    when it points into one of the API's own packages, and skipped otherwise *)
 Fixpoint walk_ref (fuel : nat) (g : env) (own : list str) (k : key) (vis : list key) : outcome (list key) :=
@@ -379,8 +424,8 @@ Definition method_from_source (guarded : bool) (im : image) (sub svc : str) (m :
   obind (if is_query_request req then
            obind (list_root resp) (fun root =>
              let fuel := S (length (im_schemas im)) in
-             omap Some (if guarded then walk_fields fuel (im_schemas im) root [] []
-                        else walk_fields_unguarded fuel (im_schemas im) root []))
+             omap Some (if guarded then walk_fields fuel (cenv (im_schemas im)) root [] []
+                        else walk_fields_unguarded fuel (cenv (im_schemas im)) root []))
          else Ok None) (fun lst =>
   Ok {| cm_service := svc; cm_name := sm_name m; cm_verb := sm_verb m; cm_path := sm_path m;
         cm_req := fill_request (sm_verb m) (sm_path m) req; cm_resp := resp; cm_list := lst |}))).
@@ -399,8 +444,11 @@ Definition method_roots (m : client_method) : list key :=
 Definition root_refs (g : env) (roots : list key) : list key :=
   flat_map (fun k => match lookup g k with Some s => succs s | None => [] end) roots.
 
+(* walkRefRoot walks st.ClientProperties() of an object it reaches through a reference; request / response /
+   entity roots are walked by their own Properties (walkRootObject), a flattened field of a root being an
+   ordinary object reference there *)
 Definition collect_refs (im : image) (ms : list client_method) : outcome (list key) :=
-  walk_refs (S (length (im_schemas im))) (im_schemas im) [im_pkg im]
+  walk_refs (S (length (im_schemas im))) (cenv (im_schemas im)) [im_pkg im]
             (root_refs (im_schemas im) (im_roots im) ++ flat_map method_roots ms) [].
 
 (* ------------------------------------------------------------------ *)
@@ -408,7 +456,7 @@ Definition collect_refs (im : image) (ms : list client_method) : outcome (list k
 Fixpoint convert_ok (arms : list string) (t : fty) : bool :=
   match t with
   | TScalar alt => mem_string alt arms
-  | TRef alt _ => mem_string alt arms
+  | TRef alt _ => mem_string (if String.eqb alt "flatten" then "object" else alt) arms   (* a flattened field is an object field *)
   | TArray i => mem_string "array" arms && convert_ok arms i
   | TMap i => mem_string "map" arms && convert_ok arms i
   end.
@@ -462,9 +510,13 @@ Record code_config := {
 (* the chain from a given source API on (client stage and swagger) *)
 Definition run_client (cc : code_config) (im : image) (src : outcome src_api) : chain_result :=
   let cli := obind src (fun api =>
-               obind (methods_from_source (cc_walk_guard cc) im api) (fun ms =>
-                 omap (fun ks => (ms, ks)) (collect_refs im ms))) in
-  let sw := obind cli (fun mk => build_swagger (cc_arms cc) (cc_resp_guard cc) (im_schemas im) (fst mk) (snd mk)) in
+               match client_env (im_schemas im) with
+               | None => Panic "stack overflow: flatten cycle in ClientProperties"
+               | Some _ =>
+                   obind (methods_from_source (cc_walk_guard cc) im api) (fun ms =>
+                     omap (fun ks => (ms, ks)) (collect_refs im ms))
+               end) in
+  let sw := obind cli (fun mk => build_swagger (cc_arms cc) (cc_resp_guard cc) (cenv (im_schemas im)) (fst mk) (snd mk)) in
   {| cr_source := src; cr_client := cli; cr_swagger := sw |}.
 
 Definition run_chain (cc : code_config) (im : image) : chain_result :=
